@@ -239,9 +239,34 @@ def p_expect_next(I, n, path, a, env):
     inspects itself (Content / ContentId choose by the child's name)"""
     I.eval(a[0], env)
     r = Rd(I, "start:?", n)
-    name = ("st", "xml::name::OwnedName", (("local_name", r), ("namespace", ("in", "ns")), ("prefix", ("in", "prefix"))))
-    ev = ("varn", "xml::reader::events::XmlEvent::StartElement", (("name", name), ("attributes", ("in", "attributes")), ("namespace", ("in", "namespace"))))
-    return var(OK, ev)
+    return var(OK, start_event(r))
+
+
+START_EV = "xml::reader::events::XmlEvent::StartElement"
+END_EV = "xml::reader::events::XmlEvent::EndElement"
+
+
+def start_event(tag):
+    name = ("st", "xml::name::OwnedName", (("local_name", tag), ("namespace", ("in", "ns")), ("prefix", ("in", "prefix"))))
+    return ("varn", START_EV, (("name", name), ("attributes", ("in", "attributes")), ("namespace", ("in", "namespace"))))
+
+
+def p_expect_peek(I, n, path, a, env):
+    I.eval(a[0], env)
+    rid = I.fresh_read("peek", core.loc(n))
+    I.emit(("P", rid, core.loc(n)))
+    return var(OK, ("rd", rid))
+
+
+def peek_binder(head):
+    """the event the reader sees when it peeks: the writer's next item, or the enclosing element's end tag"""
+    if head is None or (head[0] == "W" and head[1] == "end"):
+        return ("varn", END_EV, (("name", ("in", "end_name")),))
+    if head[0] == "W" and head[1].startswith("start:"):
+        return start_event(head[2])
+    if head[0] == "W" and head[1] == "chars":
+        return ("var", "xml::reader::events::XmlEvent::Characters", (head[2],))
+    raise shape.Mismatch(f"the reader peeks at something the model cannot describe: {head[0]}", "")
 
 
 def p_expect_end(I, n, path, a, env):
@@ -280,7 +305,7 @@ def xml_prims():
                     ("end_element", p_end_element), ("write", p_write_event), ("error", p_error)):
         P.append((re.compile(XW.replace("<", r"<").replace(">", r">") + name + r"$"), h))
     for name, h in (("read_value_in_tag", p_read_value_in_tag), ("read_value", p_read_value), ("read_characters", p_read_characters),
-                    ("read_tag_contents", p_read_tag_contents), ("expect_start_with_name", p_expect_start), ("expect_end_with_name", p_expect_end), ("expect_next", p_expect_next),
+                    ("read_tag_contents", p_read_tag_contents), ("expect_start_with_name", p_expect_start), ("expect_end_with_name", p_expect_end), ("expect_next", p_expect_next), ("expect_peek", p_expect_peek),
                     ("read_base64_characters", p_read_base64), ("error", p_error)):
         P.append((re.compile(XR + name + r"$"), h))
     P.append((re.compile(r"core::str::<impl str>::parse$"), p_parse))
@@ -307,7 +332,7 @@ def xml_pairs():
             return C(True)
         if t[0] == "app":
             f, a = t[1], t[2]
-            for frm, to in (("Faces::from_bits", "Faces::bits"), ("Axes::from_bits", "Axes::bits")):
+            for frm, to in (("Faces::from_bits", "Faces::bits"), ("Axes::from_bits", "Axes::bits"), ("FontWeight::from_u16", "FontWeight::as_u16"), ("FontStyle::from_u8", "FontStyle::as_u8")):
                 if f.endswith(frm) and a and a[0][0] == "app" and a[0][1].endswith(to):
                     return var(SOME, a[0][2][0])
             if f.endswith("SecurityCapabilities::from_bits") and a and a[0][0] == "app" and a[0][1].endswith("SecurityCapabilities::bits"):
@@ -330,8 +355,6 @@ UNSUPPORTED = {
     "rbx_types::basic_types::NumberSequence": "space-separated token stream consumed with an explicit `pieces.next()` loop",
     "rbx_types::basic_types::ColorSequence": "space-separated token stream consumed with an explicit loop",
     "rbx_types::basic_types::NumberRange": "space-separated tokens split on read",
-    "rbx_types::font::Font": "optional child elements selected by peeking at the next event",
-    "core::option::Option<rbx_types::basic_types::CFrame>": "optional child element selected by peeking",
     "rbx_types::binary_string::BinaryString": "base64 text (third-party codec); the writer encodes the value through AsRef<[u8]>, which the field-identity check does not model",
     "rbx_types::basic_types::Color3uint8": "packed integer arithmetic (shifts / masks) on the text value",
     "rbx_xml::types::strings::ProtectedStringDummy": "read-only type",
@@ -367,6 +390,8 @@ def run(c, prog):
         M.collect = False
         M.optional_read_prims = {"chars"}
         M.return_sink = True
+        M.peek_binder = peek_binder
+        M.split_written_phis = True
         try:
             outs = M.match(Iw.events, Ir.events, {})
         except shape.Mismatch as e:
@@ -386,7 +411,8 @@ def run(c, prog):
             if bad:
                 errs.append(("(value)", bad))
                 continue
-            ident = shape.Identity(prog, [("string-like wrappers", wrappers)], a2)
+            ident = shape.Identity(prog, [("string-like wrappers", wrappers), ("empty text written as <null>", empty_of)], a2)
+            ident.strict_variants = True
             errs += ident.check(t, ("in", "value"), "")
         if not errs:
             c.ok(R, inst)
